@@ -242,6 +242,8 @@ class MEIExporter:
         for note in chord:
             duration = self._handle_note_or_rest(note, chord_el)
         chord_el.set("dur", duration)
+        if "dots" in note.symbolic_duration:
+            chord_el.set("dots", str(note.symbolic_duration["dots"]))
 
     def _handle_note_or_rest(self, note, xml_voice_el):
         if isinstance(note, spt.Rest):
